@@ -37,7 +37,8 @@ def main():
         env = dict(ENV, CARGO_TARGET_DIR=os.path.join(base, "t1"))
         ok &= run_tests(vb, env, "bytes model vs bytes-1.12.1 tests", os.path.join(VERIF, "shims/vbytes/EXPECTED_FAILURES.txt"))
         # 2. HeaderMap model (with the big capacity used only for this native validation)
-        http = kani.ensure_http_patched()
+        kani.ensure_http_patched()
+        http = kani.ensure_http_model()
         w = os.path.join(base, "httpmodel")
         os.makedirs(os.path.join(w, "src"))
         os.makedirs(os.path.join(w, "tests"))
